@@ -115,6 +115,29 @@ func genC10(dir, tier string, seed int64) {
 				})
 			}
 		}
+		if op == "PRelu" {
+			// zeros of either sign (and +-1) against slopes that are NaN, +-Inf or negative: a zero is not
+			// negative, so it is returned as it is -- never multiplied by the slope
+			nan, inf := math.NaN(), math.Inf(1)
+			negz := math.Copysign(0, -1)
+			xs := []float64{0, negz, 0, negz, 0, negz, 1, -1, 0, negz}
+			sls := []float64{nan, nan, inf, -inf, -2.5, -2.5, nan, nan, -inf, inf}
+			for _, f64 := range []bool{false, true} {
+				f64 := f64
+				mk := func(v []float64) tensor.Tensor {
+					if f64 {
+						return tensor.New(tensor.WithShape(len(v)), tensor.WithBacking(append([]float64{}, v...)))
+					}
+					w := make([]float32, len(v))
+					for i, x := range v {
+						w[i] = float32(x)
+					}
+					return tensor.New(tensor.WithShape(len(v)), tensor.WithBacking(w))
+				}
+				emitOp(cw, op, nil, func() []tensor.Tensor { return []tensor.Tensor{mk(xs), mk(sls)} })
+				emitOp(cw, op, nil, func() []tensor.Tensor { return []tensor.Tensor{mk(xs[:6]), mk([]float64{-3})} })
+			}
+		}
 		for c := 0; c < per; c++ {
 			f64 := r.Intn(3) == 0
 			shape := smallShape(r, 0)
